@@ -77,7 +77,15 @@ def get_event(i, rparts, dt, mt, order, doc, entry, edit=None):
     pure = [True]
 
     def construct():
-        ps = [gen.build_part(p) for p in rparts]
+        memo = {}
+        ps = []
+        for p in rparts:                   # one recipe OBJECT used twice in the path: one part object used twice
+            if isinstance(p, dict):
+                if id(p) not in memo:
+                    memo[id(p)] = gen.build_part(p)
+                ps.append(memo[id(p)])
+            else:
+                ps.append(gen.build_part(p))
         pa = dp.DataPath(*ps, source_data=doc) if entry == "bound" else dp.DataPath(*ps)
         return ps, apply_mods(pa, dt, mt, order, pure)
 
@@ -196,8 +204,27 @@ def confusable_matches(rng):
     return [("prim", "x"), fan("map"), ("prim", 0)], doc
 
 
+def same_part_twice(rng):
+    """a path in which ONE part object stands at two positions (the first and a later one), over a document nested deep
+    enough for both: what a part selects does not depend on where else the same object is used"""
+    fan = {"rk": rng.choice(["map", "mol", "list", "mol"]), "key": None, "index": None, "value": None, "cond": None, "label": None}
+    leaf = lambda: rng.choice([1, "a", None, 2.5])      # noqa: E731
+    if fan["rk"] in ("map",):
+        doc = {"a": {"x": leaf(), "y": {"p": leaf()}}, "b": {"z": {"q": leaf(), "r": leaf()}}}
+    elif fan["rk"] == "list":
+        doc = [[leaf(), [leaf(), leaf()]], [[leaf()], leaf()]]
+    else:
+        doc = {"a": [leaf(), {"k": leaf()}], "b": {"c": [leaf(), leaf()]}}
+    extra = rng.choice([[], [fan], [("prim", 0)], [("prim", "k")]])
+    return [fan, fan] + extra, doc
+
+
 def random_cases(rng, n, modifiers):
     for _ in range(n):
+        if rng.random() < 0.02:
+            rparts, doc = same_part_twice(rng)
+            yield rparts, "none", "none", "dm", doc
+            continue
         if modifiers and rng.random() < 0.03:
             rparts, doc = confusable_matches(rng)
             yield rparts, rng.choice(DTS[:3]), rng.choice(["single", "single", "first", "all", "none"]), rng.choice(["dm", "md"]), doc
